@@ -47,7 +47,58 @@ pub fn run_header(src: &str) -> Outcome {
 
 const TOKS: &[&str] = &["a", ":", ",", "[", "]", "1", "99999999999999999999999", "\"s\"", "!", "::", "(", ")", "*", " ", "é", "}", "{", "\"", "\\"];
 
+// ---------------------------------------------------------------- lex specifications
+fn lex_once(src: String) -> Result<String, String> {
+    use lrlex::{DefaultLexerTypes, LRNonStreamingLexerDef, LexerDef};
+    let r = catch_unwind(AssertUnwindSafe(|| LRNonStreamingLexerDef::<DefaultLexerTypes<u32>>::from_str(&src)));
+    match r {
+        Err(_) => Err("panic".into()),
+        Ok(Ok(_)) => Ok("Ok".into()),
+        Ok(Err(errs)) => {
+            if errs.is_empty() { return Err("Err with an empty error list".into()); }
+            for e in &errs {
+                let sps = cfgrammar::Spanned::spans(e);
+                if sps.is_empty() { return Err("error without a span".into()); }
+                for sp in sps {
+                    if !span_ok(&src, sp) { return Err(format!("error span {}..{} cannot be rendered", sp.start(), sp.end())); }
+                }
+            }
+            Ok(format!("Err({} error(s))", errs.len()))
+        }
+    }
+}
+
+pub fn run_lex(src: &str) -> Outcome {
+    let (tx, rx) = mpsc::channel();
+    let s = src.to_string();
+    std::thread::spawn(move || { let _ = tx.send(lex_once(s)); });
+    let expected = "a value or a non-empty list of renderable errors, promptly".to_string();
+    match rx.recv_timeout(Duration::from_millis(1500)) {
+        Ok(Ok(d)) => Outcome { fails: false, observed: d, expected },
+        Ok(Err(d)) => Outcome { fails: true, observed: d, expected },
+        Err(_) => Outcome { fails: true, observed: "no result after 1.5 s (hang)".into(), expected },
+    }
+}
+
+const LEXTOKS: &[&str] = &["%%", "\n", "\n", " ", "\t", "a", "'a'", "\"b\"", ";", "<", ">", "+", "AA", "%s", "%x", ",", "\\", "\u{0085}", "\u{200E}", "\u{2028}", "//", "é", "[", "*", "\r"];
+
+pub fn search_lex(tier: &str) -> Option<Value> {
+    let n = if tier == "thorough" { 400_000 } else { 40_000 };
+    let mut st: u64 = 0x9E3779B97F4A7C15;
+    let mut next = |m: usize| { st = st.wrapping_mul(6364136223846793005).wrapping_add(1442695040888963407); ((st >> 33) as usize) % m };
+    for _ in 0..n {
+        let mut s = String::new();
+        match next(3) { 0 => s.push_str("%%\n"), 1 => s.push_str("%s AA\n%%\n"), _ => {} }
+        let l = 1 + next(9);
+        for _ in 0..l { s.push_str(LEXTOKS[next(LEXTOKS.len())]); }
+        let o = run_lex(&s);
+        if o.fails { return Some(witness("c12_lex", json!({"text": s}), &o)); }
+    }
+    None
+}
+
 pub fn search(tag: &str, tier: &str) -> Option<Value> {
+    if tag.contains(".lex.") { return search_lex(tier); }
     let depth = if tier == "thorough" { 5 } else { 4 };
     // the witness should be of the kind the failed obligation is about
     let want_hang = tag.contains("terminates") || tag.contains(".dec");
